@@ -129,15 +129,19 @@ void eb_norm_sim(eb_t *r, const eb_t *t, int n) {
 		fb_inv_sim(a, (const fb_t *)a, n);
 
 		for (int i = 0; i < n; i++) {
+			if (eb_is_infty(t[i])) {
+				eb_set_infty(r[i]);
+				continue;
+			}
 			fb_copy(r[i]->x, t[i]->x);
 			fb_copy(r[i]->y, t[i]->y);
-			if (!eb_is_infty(t[i])) {
-				fb_copy(r[i]->z, a[i]);
-			}
+			fb_copy(r[i]->z, a[i]);
 		}
 #if EB_ADD == PROJC || !defined(STRIP)
 		for (int i = 0; i < n; i++) {
-			eb_norm_imp(r[i], r[i], 1);
+			if (!eb_is_infty(r[i])) {
+				eb_norm_imp(r[i], r[i], 1);
+			}
 		}
 #endif /* EB_ADD == PROJC */
 	}
